@@ -408,7 +408,39 @@ def check_waveform(case, r: R):
     r.expect_raises('accepted:unknown-waveform', periodic_function, case['wave'])
 
 
+def load_cases(tier):
+    for case in ('neither', 'both', 'V_ref=0', 'I_ref=0', 'V_ref<0', 'I_ref<0', 'both-negative'):
+        yield {'fault': case}
+    for case in ('V_ref', 'I_ref', 'V_ref+Q', 'I_ref+Q'):
+        yield {'fault': None, 'form': case}
+
+
+def check_load_element(case, r: R):
+    """reference-value rules of the load element: exactly one positive reference value"""
+    from CircuitCalculator.Network import elements as elm
+    r.nt(True)
+    P, Q = 12.5, 3.25
+    f = case['fault']
+    r.cls(f'fault=load:{f}' if f else 'twin')
+    if f is None:
+        with r.lib('valid-load-rejected'):
+            form = case['form']
+            kw = {'V_ref': 4.0} if form.startswith('V_ref') else {'I_ref': 0.5}
+            if form.endswith('+Q'):
+                kw['Q'] = Q
+            e = elm.load('L1', P, **kw)
+            S = complex(P, kw.get('Q', 0))
+            want_Y = S / 16.0 if 'V_ref' in kw else 1 / (S / 0.25)
+            if e.name != 'L1' or abs(e.Y - want_Y) > 1e-12 * abs(want_Y) or e.V != 0 or e.I != 0:
+                r.fail('stored-altered', f'{form}: Y={e.Y!r}, expected {want_Y!r}')
+        return
+    kw = {'neither': {}, 'both': {'V_ref': 4.0, 'I_ref': 0.5}, 'V_ref=0': {'V_ref': 0.0}, 'I_ref=0': {'I_ref': 0.0}, 'V_ref<0': {'V_ref': -4.0},
+          'I_ref<0': {'I_ref': -0.5}, 'both-negative': {'V_ref': -4.0, 'I_ref': -0.5}}[f]
+    r.expect_raises(f'accepted:load-{f}', elm.load, 'L1', P, **kw)
+
+
 TESTS = [
+    Test('load-element-rules', check_load_element, enumerate=load_cases, exhaustive=True),
     Test('network-faults', check_network_fault, enumerate=network_cases, exhaustive=True),
     Test('constructor-signs', check_constructor, enumerate=constructor_cases, strategy=random_sign_case, quick=3000, thorough=60000, exhaustive=True),
     Test('circuit-faults', check_circuit_fault, enumerate=circuit_cases, exhaustive=True),
